@@ -552,3 +552,6 @@ REGISTRY["C11"]["theorems"] += T("Proofs.C11c", "BLDFM.C11", ["solveOk_of_geom_e
 # the FFT layer is on the path of every solver-family property (found by C11p: a change inside FFTManager.fft2 broke no obligation of C11)
 for _p in ("C01", "C02", "C03", "C04", "C05", "C06", "C07", "C10", "C11"):
     _add_bodies(_p, ["fft_fft2", "fft_ifft2", "fft_get_manager", "fftmgr_init", "fftmgr_fft2", "fftmgr_ifft2"])
+
+REGISTRY["C18"]["theorems"] += T("Proofs.C18b", "BLDFM.C18", ["coords_meshgrid3", "coords_meshgrid2", "coords_vectors", "stored_coords", "coords_lossless_3d",
+                                                              "coords_lossless_2d", "coords_indices", "dims", "slots_filled"])
